@@ -43,17 +43,20 @@ Record selstate := mkSel {
 Record proc := mkProc {
   p_stack : list value; p_locals : list value; p_frames : list frame; p_pers : bool;
   p_mailbox : list value; p_result : option (option value); p_sel : option selstate;
-  p_await : list (nat * option value) }.
+  p_await : list (nat * option value);
+  (* 8388832 (F72): the awaited processes whose state has not been reported yet *)
+  p_unreported : list nat }.
 
-Definition new_proc (pers : bool) : proc := mkProc [] [] [] pers [] None None [].
+Definition new_proc (pers : bool) : proc := mkProc [] [] [] pers [] None None [] [].
 
-Definition set_stack p s := mkProc s (p_locals p) (p_frames p) (p_pers p) (p_mailbox p) (p_result p) (p_sel p) (p_await p).
-Definition set_locals p l := mkProc (p_stack p) l (p_frames p) (p_pers p) (p_mailbox p) (p_result p) (p_sel p) (p_await p).
-Definition set_frames p f := mkProc (p_stack p) (p_locals p) f (p_pers p) (p_mailbox p) (p_result p) (p_sel p) (p_await p).
-Definition set_mailbox p m := mkProc (p_stack p) (p_locals p) (p_frames p) (p_pers p) m (p_result p) (p_sel p) (p_await p).
-Definition set_result p r := mkProc (p_stack p) (p_locals p) (p_frames p) (p_pers p) (p_mailbox p) r (p_sel p) (p_await p).
-Definition set_sel p s := mkProc (p_stack p) (p_locals p) (p_frames p) (p_pers p) (p_mailbox p) (p_result p) s (p_await p).
-Definition set_await p a := mkProc (p_stack p) (p_locals p) (p_frames p) (p_pers p) (p_mailbox p) (p_result p) (p_sel p) a.
+Definition set_stack p s := mkProc s (p_locals p) (p_frames p) (p_pers p) (p_mailbox p) (p_result p) (p_sel p) (p_await p) (p_unreported p).
+Definition set_locals p l := mkProc (p_stack p) l (p_frames p) (p_pers p) (p_mailbox p) (p_result p) (p_sel p) (p_await p) (p_unreported p).
+Definition set_frames p f := mkProc (p_stack p) (p_locals p) f (p_pers p) (p_mailbox p) (p_result p) (p_sel p) (p_await p) (p_unreported p).
+Definition set_mailbox p m := mkProc (p_stack p) (p_locals p) (p_frames p) (p_pers p) m (p_result p) (p_sel p) (p_await p) (p_unreported p).
+Definition set_result p r := mkProc (p_stack p) (p_locals p) (p_frames p) (p_pers p) (p_mailbox p) r (p_sel p) (p_await p) (p_unreported p).
+Definition set_sel p s := mkProc (p_stack p) (p_locals p) (p_frames p) (p_pers p) (p_mailbox p) (p_result p) s (p_await p) (p_unreported p).
+Definition set_await p a := mkProc (p_stack p) (p_locals p) (p_frames p) (p_pers p) (p_mailbox p) (p_result p) (p_sel p) a (p_unreported p).
+Definition set_unreported p u := mkProc (p_stack p) (p_locals p) (p_frames p) (p_pers p) (p_mailbox p) (p_result p) (p_sel p) (p_await p) u.
 
 (* the roots of one process, as reachable_heap_indices (executor.rs:544) enumerates them *)
 Definition sel_refs (s : option selstate) : list nat :=
@@ -527,7 +530,8 @@ Definition initialize_select (pid : nat) (now : Z) : M (option action) :=
   | [] => mput (set_sel p (Some ss)) ;;; mret None
   | _ :: _ =>
       let '(a', stale) := await_register targets (p_await p) [] in
-      mput (set_await (set_sel p (Some ss)) a') ;;;
+      (* 8388832: `process.unreported_awaits = pid_targets.clone()` *)
+      mput (set_unreported (set_await (set_sel p (Some ss)) a') targets) ;;;
       (if fx then mheap_ (fun h => release_vals h stale) else mret tt) ;;;
       mret (Some (AAwait targets pid))                    (* mark_selecting *)
   end.
@@ -668,13 +672,22 @@ Definition handle_select (pid : nat) (x : hext) : M (option action) :=
   p <~ mget ;;
   match rr, p_sel p with
   | None, None => initialize_select pid (hx_now x)
-  | _, None => mfail FBuiltinError                          (* "Select state missing" *)
-  | _, Some ss =>
-      (* ensure_select_start_time (2238) *)
-      let start := match ss_start ss with Some t => t | None => hx_now x end in
-      let ss' := mkSel (ss_frame ss) (ss_instr ss) (ss_sources ss) (ss_cursors ss) (Some start) (ss_recv ss) in
-      mput (set_sel p (Some ss')) ;;;
-      select_sources ss' rr start (hx_now x) x (ss_sources ss') 0
+  | _, _ =>
+    (* Phase 3 (8388832): until the await has reported every process source the select only
+       re-parks (`mark_selecting; return Ok(None)`); its start time stays unset *)
+    match p_unreported p with
+    | _ :: _ => mret (Some AParked)
+    | [] =>
+      match p_sel p with
+      | None => mfail FBuiltinError                          (* "Select state missing" *)
+      | Some ss =>
+          (* ensure_select_start_time (2238) *)
+          let start := match ss_start ss with Some t => t | None => hx_now x end in
+          let ss' := mkSel (ss_frame ss) (ss_instr ss) (ss_sources ss) (ss_cursors ss) (Some start) (ss_recv ss) in
+          mput (set_sel p (Some ss')) ;;;
+          select_sources ss' rr start (hx_now x) x (ss_sources ss') 0
+      end
+    end
   end.
 
 (* execute_hot / execute_cold (1328, 1383) *)
@@ -776,12 +789,17 @@ Fixpoint auto_pop (fuel : nat) (h : heap) (p : proc) : outcome (heap * proc) :=
       end
   end.
 
-(* notify_result (753) *)
-Definition notify_result (x : exec) (awaiter awaited : nat) (v : value) (data : list (list Z))
+(* notify_await_report (8388832): the state of `targets` is known to the awaiter's select *)
+Definition report_await (x : exec) (awaiter : nat) (targets : list nat) : exec :=
+  match get_proc x awaiter with
+  | Some p => put_proc x awaiter
+                (set_unreported p (filter (fun t => negb (existsb (Nat.eqb t) targets)) (p_unreported p)))
+  | None => x
+  end.
+
+(* notify_result (753), after the "still awaited" test and the report *)
+Definition notify_result_store (x : exec) (awaiter awaited : nat) (v : value) (data : list (list Z))
   : outcome exec :=
-  if fx && negb (match get_proc x awaiter with Some p => has_key awaited (p_await p) | None => false end)
-  then Val x                          (* no longer awaited: nothing is stored (wake_selecting only) *)
-  else
   pr <- inject (x_heap x) v data ;;
   let '(h1, v1) := pr in
   match get_proc x awaiter with
@@ -792,6 +810,15 @@ Definition notify_result (x : exec) (awaiter awaited : nat) (v : value) (data : 
       h3 <- (if fx then match old with Some (Some o) => release h2 o | _ => Val h2 end else Val h2) ;;
       Val (put_proc (put_heap x h3) awaiter (set_await p a'))
   end.
+Definition still_awaited (x : exec) (awaiter awaited : nat) : bool :=
+  match get_proc x awaiter with Some p => has_key awaited (p_await p) | None => false end.
+(* notify_result (753): a result reports the state of its process BEFORE the heap data is injected
+   (so the report stays when the injection fails) *)
+Definition notify_result (x : exec) (awaiter awaited : nat) (v : value) (data : list (list Z))
+  : outcome exec :=
+  if fx && negb (still_awaited x awaiter awaited)
+  then Val x                          (* no longer awaited: nothing is stored (wake_selecting only) *)
+  else notify_result_store (report_await x awaiter [awaited]) awaiter awaited v data.
 
 (* completion: notify every process whose `awaiting` has the key (1245-1280) *)
 Fixpoint notify_awaiters (x : exec) (pid : nat) (res : option value) (ws : list nat) : outcome exec :=
@@ -806,7 +833,7 @@ Fixpoint notify_awaiters (x : exec) (pid : nat) (res : option value) (ws : list 
                    (check_completed_processes -> UpdateAwaitResults). *)
                 match notify_result x w pid v [] with
                 | Val x' => Val x'
-                | Err _ => Val x
+                | Err _ => Val (report_await x w [pid])     (* the report preceded the failed remap *)
                 | Panic n => Panic n
                 end
             | None => match get_proc x w with
@@ -898,7 +925,7 @@ Definition spawn_process (x : exec) (pid : nat) (fn : option nat) (caps : list v
       let '(h2, a1) := pr2 in
       h3 <- retain h2 a1 ;;
       Val (put_proc (put_heap x h3) pid
-             (mkProc [a1] locals [Build_frame f 0 (length caps) 0] pers [] None None []))
+             (mkProc [a1] locals [Build_frame f 0 (length caps) 0] pers [] None None [] []))
   end.
 
 (* replace_locals (447) *)
